@@ -835,7 +835,12 @@ def check_C12(tr):
     if quiet_case(tr) and (not c.is_iter() or c.fused()) and all(o.ret is not None and not o.panic for o in loops) and c.src_len() <= BIG_SRC:
         # every thread that pulls ends with a loop => everything is visited exactly once overall
         got = sorted(delivered_positions(tr))
-        if got != list(range(c.src_len())):
+        if c.zst:
+            # zero-sized elements carry no identity: the number of closure calls / deliveries is what can be checked
+            n = sum(len(tr.deliveries(o)) for o in tr.ops if o.slot == 0)
+            if n != c.src_len():
+                bad.append("%d zero-sized elements, but closures/pulls saw %d" % (c.src_len(), n))
+        elif got != list(range(c.src_len())):
             bad.append("closures/pulls saw positions %s, expected each of 0..%d once" % (got, c.src_len()))
         folds = [o for o in loops if o.op == "fold"]
         if folds and len(folds) == len([o for o in tr.pulls()]):
